@@ -11,6 +11,8 @@ KNOWN = os.path.join(VERIF, "known_findings.json")
 
 
 def load_known():
+    if os.environ.get("VERIF_SHOW_KNOWN"):      # development aid: report listed findings like any other violation
+        return []
     if not os.path.exists(KNOWN):
         return []
     with open(KNOWN) as f:
